@@ -15,8 +15,8 @@ EXTENDS Lo, TLC, Json, IOUtils
 
 Rec == ndJsonDeserialize(IOEnv.TRACE)
 
-VARIABLES l, bad, planted, reported
-vars == <<l, bad, planted, reported>>
+VARIABLES l, bad, planted, reported, plantedT, reportedT
+vars == <<l, bad, planted, reported, plantedT, reportedT>>
 
 Has(r, f) == f \in DOMAIN r
 
@@ -54,13 +54,19 @@ Accept(e) == CASE e.ev = "lo.snps" -> SnpsOK(e)
                [] e.ev = "lo.indels" -> IndelsOK(e)
                [] OTHER -> FALSE
 
-Init == l = 1 /\ bad = {} /\ planted = 0 /\ reported = 0
+\* two strata are counted separately for the 90% bound: generic indels, and "tandem" ones whose bases copy
+\* their neighbours (run extensions), where both paths of the bubble are short
+Counts(e, ok, stratum) == IF e.ev = "lo.indels" /\ e.ctx.pre_strict /\ e.ctx.stratum = stratum
+                          THEN <<Len(e.ctx.planted), IF ok THEN Len(e.records) ELSE 0>> ELSE <<0, 0>>
+Init == l = 1 /\ bad = {} /\ planted = 0 /\ reported = 0 /\ plantedT = 0 /\ reportedT = 0
 Next == /\ l <= Len(Rec)
         /\ LET e == Rec[l]  ok == Accept(e) IN
            /\ bad' = IF ok THEN bad ELSE bad \cup {l}
-           /\ planted' = planted + (IF e.ev = "lo.indels" /\ e.ctx.pre_strict THEN Len(e.ctx.planted) ELSE 0)
-           /\ reported' = reported + (IF e.ev = "lo.indels" /\ e.ctx.pre_strict /\ ok THEN Len(e.records) ELSE 0)
+           /\ planted' = planted + Counts(e, ok, "generic")[1]
+           /\ reported' = reported + Counts(e, ok, "generic")[2]
+           /\ plantedT' = plantedT + Counts(e, ok, "tandem")[1]
+           /\ reportedT' = reportedT + Counts(e, ok, "tandem")[2]
         /\ l' = l + 1
 Spec == Init /\ [][Next]_vars
-AtEnd == l > Len(Rec) => PrintT(<<"TRACE-END", ToJson([n |-> Len(Rec), bad |-> SetToSortSeq(bad, <), planted |-> planted, reported |-> reported])>>)
+AtEnd == l > Len(Rec) => PrintT(<<"TRACE-END", ToJson([n |-> Len(Rec), bad |-> SetToSortSeq(bad, <), planted |-> planted, reported |-> reported, plantedT |-> plantedT, reportedT |-> reportedT])>>)
 =============================================================================
